@@ -1411,4 +1411,29 @@ theorem runY_refines (v : VId) (ir : Nat → Bool) (adm : Job → Path → Prop)
     obtain ⟨s2, h2, hi2⟩ := stepY_inv v ir adm hadm y1 y2 evs hstep s1 hi1
     exact ⟨s2, by rw [runOn_append, h1]; exact h2, hi2⟩
 
+-- ------------------------------------------------------------------------------------------------ reading the machine's state back
+
+/-- the machine's entries carrying key `k` are the commander's logs (persisted or queued) carrying it -/
+theorem keyed_length (v : VId) (s : Guard.S) (sh : Shared)
+    (hdur : s.durable.map (fun e => (e.key, e.id)) = sh.store.map (fun l => (v.keyOf l, l.id)))
+    (hpend : s.pending = sh.queue.map (entryOf v)) (k : String) :
+    (Guard.keyed s k).length = ((sh.store ++ sh.queue.map (·.2)).filter (fun l => v.keyOf l = k)).length := by
+  have h1 : (s.durable.filter (·.key = k)).length = (sh.store.filter (fun l => v.keyOf l = k)).length := by
+    have a1 : (s.durable.filter (·.key = k)).length = ((s.durable.map (fun e => (e.key, e.id))).filter (fun x => x.1 = k)).length := by
+      simp [List.filter_map, Function.comp_def]
+    rw [a1, hdur]
+    simp [List.filter_map, Function.comp_def]
+  have h2 : (s.pending.filter (·.key = k)).length = ((sh.queue.map (·.2)).filter (fun l => v.keyOf l = k)).length := by
+    rw [hpend]
+    simp [List.filter_map, Function.comp_def, entryOf]
+    first | rfl | (congr 2; funext x; congr)
+  simp only [Guard.keyed, List.filter_append, List.length_append, h1, h2]
+
+theorem uniqueKeys_of_store (v : VId) (store : List LogE)
+    (h : ∀ k, k ≠ "" → (store.filter (fun l => v.keyOf l = k)).length ≤ 1) :
+    Guard.UniqueKeys (store.map (fun l => ⟨v.keyOf l, l.id, 0⟩)) := by
+  intro k hk
+  have := h k hk
+  simpa [List.filter_map, Function.comp_def] using this
+
 end Engine.Skel.GuardRef
